@@ -611,6 +611,16 @@ fn exec_write(plan: &Plan, st: &mut Stats) -> Result<(), Violation> {
         } else {
             map.encode(sink)
         };
+        if res.is_err() {
+            // the sink failed and encode said so: the map itself must be none the worse — encoding it once more into memory
+            // gives the clean text
+            let mut again = Vec::new();
+            let r2 = map.encode(&mut again);
+            st.inc("probe.encode-again-after-a-failed-encode");
+            if r2.is_err() || again != *clean {
+                return Err(Violation::new("C09/failed-encode-damaged-the-map", "second-encode", format!("after an encode that returned an error, encoding the same map into a Vec gives {} bytes (result {:?}), the clean encoding has {}", again.len(), r2.map_err(|e| e.kind()), clean.len())));
+            }
+        }
         let s = state.borrow();
         st.add("steps.writer_calls", s.calls + s.flush_calls);
         st.add("fired.W1-short-writes", s.short_writes);
